@@ -56,7 +56,8 @@ type Floor struct {
 }
 
 func NewCheck(id, level, tier string, p *Prog) *Check {
-	return &Check{ID: id, Level: level, Tier: tier, P: p, Analysed: map[string]bool{}, Extra: map[string]any{}, start: time.Now()}
+	return &Check{ID: id, Level: level, Tier: tier, P: p, Analysed: map[string]bool{}, Extra: map[string]any{}, start: time.Now(),
+		Assumptions: []string{}, Trusted: []string{}, Rules: []string{}, Notes: []string{}, Floors: []Floor{}}
 }
 
 func (c *Check) add(rule, construct, pos, verdict, fact string) {
